@@ -509,7 +509,7 @@ func (env *c16Env) gen(t *rapid.T) *c16Req {
 			}
 		}
 	} else {
-		kinds = []string{rapid.SampledFrom([]string{"L,W,M,E", "W", "M,W", "M", "L,W", "W,F", "E,W", "W,Fm,M", "L,W,E"}).Draw(t, "goodsigs")}
+		kinds = []string{rapid.SampledFrom([]string{"L,W,M,E", "W", "M,W", "M", "L,W", "W,F", "E,W", "W,Fm,M", "L,W,E", "W,Fm", "Fm,W", "M,F", "M,E", "E,M", "L,M,E"}).Draw(t, "goodsigs")}
 		kinds = strings.Split(kinds[0], ",")
 	}
 	r.sigs = kinds
@@ -780,6 +780,15 @@ func TestVerifC16SignSubtree(t *testing.T) {
 		h0 := wd.lock.histLen()
 		resp := wd.post("/sign-subtree", r.body)
 		env.check(rt, r, resp)
+		if rapid.IntRange(0, 3).Draw(rt, "sendAgain") == 2 {
+			// the very same request once more (a client retrying): the same verdict applies to the second answer
+			resp2 := wd.post("/sign-subtree", r.body)
+			env.check(rt, r, resp2)
+			if (resp.code == 200) != (resp2.code == 200) {
+				rt.Fatalf("C16 violated: the same request was answered %d the first time and %d the second time (request %s)", resp.code, resp2.code, r.desc())
+			}
+			rec.Add("requests-sent-twice", 1)
+		}
 		if wd.lock.histLen() != h0 {
 			rt.Fatalf("C16 violated: sign-subtree wrote to the lock store (request %s)", r.desc())
 		}
